@@ -226,12 +226,12 @@ def run(chk, R, tier, seed):
                        ["s", c])} for c in ("EUR", "JPY")]
     cases = mixed_types_cases(chk, rng, w) + number_cases(chk, rng, w)
     chk.exhaustive["ordered pairs of distinct predefined types (+Money)"] = True
-    n = 2500 if tier == "quick" else 60000
+    n = 6000 if tier == "quick" else 60000
     for _ in range(n):
         st, jd = same_type_sub(chk, rng, w, "predefined")
         cases.append(Case(st, (lambda obs, rec, case, jd=jd: jd(obs))))
     run_cases(chk, R, cases, per_program=80, prelude=prelude)
-    nw = 30 if tier == "quick" else 800
+    nw = 60 if tier == "quick" else 800
     cases = []
     for wi in range(nw):
         plan, ww = random_plan(rng, noref=True)
